@@ -32,7 +32,13 @@ pub enum Cmd {
     MoveMem(Loc, u16),
     Goto(Loc),
     Assembly(Loc),
+    /// `assembly` bracketed by `echo @a` / `echo @/a`, so that the printed statement text (which
+    /// may contain line breaks) is observed byte for byte
+    AsmB(Loc),
+    /// `eval`, bracketed by `echo @e` / `echo @/e` (a printed diagnostic is collapsed to `<evalmsg>`)
     Eval(String),
+    /// `eval` without the markers (only produced when parsing a request back)
+    EvalRaw(String),
     Echo(String),
     Reset,
     Quit,
@@ -96,7 +102,9 @@ impl Cmd {
             Cmd::MoveMem(l, v) => format!("move {} x{:04x}", l.text(), v),
             Cmd::Goto(l) => format!("goto {}", l.text()),
             Cmd::Assembly(l) => format!("assembly {}", l.text()),
-            Cmd::Eval(s) => format!("eval {}", s),
+            Cmd::AsmB(l) => format!("echo @a\nassembly {}\necho @/a", l.text()),
+            Cmd::Eval(s) => format!("echo @e\neval {}\necho @/e", s),
+            Cmd::EvalRaw(s) => format!("eval {}", s),
             Cmd::Echo(s) => format!("echo {}", s),
             Cmd::Reset => "reset".into(),
             Cmd::Quit => "quit".into(),
@@ -122,7 +130,9 @@ impl Cmd {
             Cmd::MoveMem(l, v) => format!("mv:{}:{:04x}", l.token(), v),
             Cmd::Goto(l) => format!("g:{}", l.token()),
             Cmd::Assembly(l) => format!("a:{}", l.token()),
-            Cmd::Eval(s) => format!("ev:{}", hex(s.as_bytes())),
+            Cmd::AsmB(l) => format!("e:{} a:{} e:{}", hex(b"@a"), l.token(), hex(b"@/a")),
+            Cmd::Eval(s) => format!("e:{} ev:{} e:{}", hex(b"@e"), hex(s.as_bytes()), hex(b"@/e")),
+            Cmd::EvalRaw(s) => format!("ev:{}", hex(s.as_bytes())),
             Cmd::Echo(s) => format!("e:{}", hex(s.as_bytes())),
             Cmd::Reset => "z".into(),
             Cmd::Quit => "q".into(),
@@ -158,7 +168,7 @@ impl Cmd {
             }
             "g" => Cmd::Goto(Loc::parse(p.get(1)?)?),
             "a" => Cmd::Assembly(Loc::parse(p.get(1)?)?),
-            "ev" => Cmd::Eval(String::from_utf8(unhex(p.get(1)?)?).ok()?),
+            "ev" => Cmd::EvalRaw(String::from_utf8(unhex(p.get(1)?)?).ok()?),
             "e" => Cmd::Echo(String::from_utf8(unhex(p.get(1)?)?).ok()?),
             "z" => Cmd::Reset,
             "q" => Cmd::Quit,
@@ -292,6 +302,104 @@ impl DbgCase {
     }
 }
 
+/// A SOURCE-LEVEL session: a real assembly source (labels, instructions, directives, layout)
+/// plus what the generator's abstract program says the debugger should know about it.  The
+/// request carries the source text; the model driver assembles it with the Lean assembler model.
+#[derive(Clone, Debug)]
+pub struct SrcCase {
+    pub tag: &'static str,
+    pub stack: bool,
+    pub fuel: u64,
+    pub inp: Vec<u8>,
+    pub src: String,
+    /// origin according to the abstract program
+    pub orig: u16,
+    /// per image word: `renderStatement` of the statement that produced it
+    pub texts: Vec<String>,
+    /// word indices before which a `.break` stands
+    pub breaks: Vec<usize>,
+    /// label → index of the word it marks
+    pub labels: Vec<(String, usize)>,
+    pub cmds: Vec<Cmd>,
+}
+
+impl SrcCase {
+    pub fn script(&self) -> String {
+        self.cmds.iter().map(|c| c.text()).collect::<Vec<_>>().join("\n")
+    }
+    pub fn request(&self) -> String {
+        let mut s = format!(
+            "{} {} {:x} {} {} {:04x} {:x}",
+            self.tag, self.stack as u8, self.fuel, hex(&self.inp), hex(self.src.as_bytes()), self.orig, self.texts.len()
+        );
+        for t in &self.texts {
+            s.push(' ');
+            s.push_str(&hex(t.as_bytes()));
+        }
+        s.push_str(&format!(" {:x}", self.breaks.len()));
+        for k in &self.breaks {
+            s.push_str(&format!(" {:x}", k));
+        }
+        s.push_str(&format!(" {:x}", self.labels.len()));
+        for (n, k) in &self.labels {
+            s.push_str(&format!(" {} {:x}", hex(n.as_bytes()), k));
+        }
+        let toks: Vec<String> = self.cmds.iter().map(|c| c.token()).collect();
+        let toks = toks.join(" ");
+        let ntok = if toks.is_empty() { 0 } else { toks.split(' ').count() };
+        s.push_str(&format!(" {:x}", ntok));
+        if ntok > 0 {
+            s.push(' ');
+            s.push_str(&toks);
+        }
+        s
+    }
+    pub fn parse(line: &str, tag: &'static str) -> Option<SrcCase> {
+        let f: Vec<&str> = line.split_whitespace().collect();
+        let h = |i: usize| -> Option<usize> { usize::from_str_radix(f.get(i)?, 16).ok() };
+        let text = |i: usize| -> Option<String> { String::from_utf8(unhex(f.get(i)?)?).ok() };
+        let stack = *f.get(1)? != "0";
+        let fuel = h(2)? as u64;
+        let inp = unhex(f.get(3)?)?;
+        let src = text(4)?;
+        let orig = h(5)? as u16;
+        let nt = h(6)?;
+        let mut i = 7;
+        let mut texts = Vec::new();
+        for _ in 0..nt {
+            texts.push(text(i)?);
+            i += 1;
+        }
+        let nb = h(i)?;
+        i += 1;
+        let mut breaks = Vec::new();
+        for _ in 0..nb {
+            breaks.push(h(i)?);
+            i += 1;
+        }
+        let nl = h(i)?;
+        i += 1;
+        let mut labels = Vec::new();
+        for _ in 0..nl {
+            labels.push((text(i)?, h(i + 1)?));
+            i += 2;
+        }
+        let nc = h(i)?;
+        i += 1;
+        let mut cmds = Vec::new();
+        for _ in 0..nc {
+            cmds.push(Cmd::parse(f.get(i)?)?);
+            i += 1;
+        }
+        Some(SrcCase { tag, stack, fuel, inp, src, orig, texts, breaks, labels, cmds })
+    }
+}
+
+/// Run a source-level session on the real assembler + debugger: the observation line.
+pub fn run_src(cap: &mut Capture, c: &SrcCase) -> String {
+    run_session(cap, c.stack, c.fuel, &c.inp, c.src.clone(), c.script()).line
+}
+
 const RUNTIME_NOISE: [&str; 6] = [
     "exception:",
     "unexpected end of input",
@@ -302,17 +410,62 @@ const RUNTIME_NOISE: [&str; 6] = [
 ];
 
 /// Non-empty stderr lines, without the runtime's own (unmodelled) messages; help text is
-/// collapsed to `<help>`.
+/// collapsed to `<help>`; what `eval` prints between its `[@e]` … `[@/e]` markers is kept when it
+/// is identifier lines (`DisallowedInstruction::…`) and collapsed to `<evalmsg>` when it is a
+/// diagnostic; what `assembly` prints between `[@a]` … `[@/a]` is kept byte for byte as ONE entry
+/// (without the newline `show_assembly_source` adds), nothing when it printed no text.
 pub fn stderr_lines(err: &[u8]) -> Vec<String> {
     let text = String::from_utf8_lossy(err);
     let mut out = Vec::new();
     let mut in_help = false;
-    for l in text.lines() {
-        let l = l.trim_end_matches('\r');
+    let mut in_eval: Option<Vec<String>> = None;
+    let mut in_asm: Option<Vec<String>> = None;
+    for raw in text.split('\n') {
+        if let Some(seg) = &mut in_asm {
+            if raw == "[@/a]" {
+                // every piece was followed by a newline; the last one is `dprintln!(Always)`'s
+                let joined = seg.join("\n");
+                if !joined.is_empty() {
+                    out.push(joined);
+                }
+                out.push(raw.to_string());
+                in_asm = None;
+            } else {
+                seg.push(raw.to_string());
+            }
+            continue;
+        }
+        let l = raw.trim_end_matches('\r');
         if l.trim().is_empty() {
             continue;
         }
         if RUNTIME_NOISE.iter().any(|p| l.trim_start().starts_with(p)) {
+            continue;
+        }
+        if let Some(seg) = &mut in_eval {
+            if l == "[@/e]" {
+                if !seg.is_empty() {
+                    if seg.iter().all(|x| x.starts_with("DisallowedInstruction::")) {
+                        out.append(seg);
+                    } else {
+                        out.push("<evalmsg>".to_string());
+                    }
+                }
+                out.push(l.to_string());
+                in_eval = None;
+            } else {
+                seg.push(l.to_string());
+            }
+            continue;
+        }
+        if l == "[@e]" {
+            in_eval = Some(Vec::new());
+            out.push(l.to_string());
+            continue;
+        }
+        if l == "[@a]" {
+            in_asm = Some(Vec::new());
+            out.push(l.to_string());
             continue;
         }
         // the help text is bracketed by the harness with `[@h]` … `[@/h]` echo markers
@@ -331,6 +484,22 @@ pub fn stderr_lines(err: &[u8]) -> Vec<String> {
             continue;
         }
         out.push(l.to_string());
+    }
+    // a session that ended inside a bracket (exit from `eval getc` at end of input, panic)
+    if let Some(seg) = in_eval {
+        if !seg.is_empty() {
+            if seg.iter().all(|x| x.starts_with("DisallowedInstruction::")) {
+                out.extend(seg);
+            } else {
+                out.push("<evalmsg>".to_string());
+            }
+        }
+    }
+    if let Some(seg) = in_asm {
+        let joined = seg.join("\n");
+        if !joined.is_empty() {
+            out.push(joined);
+        }
     }
     out
 }
@@ -377,18 +546,47 @@ pub fn run_plain(cap: &mut Capture, c: &DbgCase) -> String {
 /// Run the session on the real assembler + debugger.
 pub fn run_debug(cap: &mut Capture, c: &DbgCase) -> DbgObs {
     let _watch = crate::watch::Guard::new(&c.request());
+    run_session_mode(cap, c.stack, c.fuel, &c.inp, c.source(), c.script(), c.nm)
+}
+
+/// Assemble `source` with the real assembler and run `script` in the real debugger.
+pub fn run_session(cap: &mut Capture, stack: bool, fuel: u64, inp: &[u8], source: String, script: String) -> DbgObs {
+    run_session_mode(cap, stack, fuel, inp, source, script, false)
+}
+
+/// `nm`: run in the normal (non `--minimal`) output mode.
+pub fn run_session_mode(cap: &mut Capture, stack: bool, fuel: u64, inp: &[u8], source: String, script: String, nm: bool) -> DbgObs {
+    struct C<'a> {
+        stack: bool,
+        fuel: u64,
+        inp: &'a [u8],
+        nm: bool,
+    }
+    let c = C { stack, fuel, inp, nm };
     set_features(c.stack);
     lace::set_minimal(!c.nm);
     lace::reset_state();
-    let src: &'static str = Box::leak(c.source().into_boxed_str());
-    let script = c.script();
+    let src: &'static str = Box::leak(source.into_boxed_str());
     let mut slot: Option<RunEnvironment> = None;
+    // 0 = assembled, 1 = the assembler returned an error
+    let mut asm_err = false;
     let load = guarded(|| {
-        let parser = lace::AsmParser::new(src).expect("lex");
-        let mut air = parser.parse().expect("parse");
-        air.backpatch().expect("backpatch");
+        let air = lace::AsmParser::new(src).and_then(|p| p.parse()).and_then(|mut air| {
+            air.backpatch()?;
+            Ok(air)
+        });
+        let air = match air {
+            Ok(air) => air,
+            Err(_) => {
+                asm_err = true;
+                return;
+            }
+        };
         let opts = lace::debugger::Options { command: Some(script.clone()) };
-        slot = Some(RunEnvironment::try_from(air, Some(opts)).expect("try_from"));
+        match RunEnvironment::try_from(air, Some(opts)) {
+            Ok(env) => slot = Some(env),
+            Err(_) => asm_err = true,
+        }
     });
     let fail = |s: &str| DbgObs { line: s.to_string(), program: s.to_string(), iterations: 0, executed: 0, commands: 0 };
     match load {
@@ -397,9 +595,12 @@ pub fn run_debug(cap: &mut Capture, c: &DbgCase) -> DbgObs {
         Outcome::Panic(_) => return fail("loadpanic"),
         Outcome::Fuel => return fail("loadfuel"),
     }
+    if asm_err {
+        return fail("asmdiag");
+    }
     let mut env = slot.unwrap();
     let shadow: Vec<u16> = env.verif_mem().to_vec();
-    cap.set_stdin(&c.inp);
+    cap.set_stdin(c.inp);
     lace::verif::set_fuel(Some(c.fuel));
     lace::verif::set_logging(true);
     cap.begin();
@@ -1022,7 +1223,8 @@ pub fn spell_cmd(rng: &mut Rng, c: &Cmd) -> String {
                 format!("{}{}{}", pick(rng, &["assembly", "a", "asm"]), sp(rng), spell_loc(rng, l))
             }
         }
-        Cmd::Eval(s) => format!("{} {}", pick(rng, &["eval", "e"]), s),
+        Cmd::Eval(s) | Cmd::EvalRaw(s) => format!("{} {}", pick(rng, &["eval", "e"]), s),
+        Cmd::AsmB(l) => format!("{}{}{}", pick(rng, &["assembly", "a", "asm"]), sp(rng), spell_loc(rng, l)),
         Cmd::Echo(s) => format!("echo {}", s),
         Cmd::Reset => pick(rng, &["reset", "z"]),
         Cmd::Quit => pick(rng, &["quit", "q"]),
